@@ -1,7 +1,7 @@
 """C04 — join / tryjoin / detach: result delivered once, fiber reclaimed once, never early (structural part)."""
 from core import strip, is_field, key_mentions, order_ge, key_str
 from facts import AnalysisBroken
-from rules import (nodeset, ev, Unevaluable, forced_edges, atom_from, reach, atomic_ops, ret_const, callpred)
+from rules import (check_init, nodeset, ev, Unevaluable, forced_edges, atom_from, reach, atomic_ops, ret_const, callpred)
 import stale
 from props import c01
 
@@ -94,9 +94,20 @@ def run(ctx):
         bad = table(ctx, mc, o, x, {NONE: dict(saw=True, cow=False), WFJ: dict(saw=False, cow=False), WTJ: dict(saw=False, cow=True), DET: dict(saw=False, cow=False)})
         rs = [s for s in mc.stores_to(F, "result")]
         own = [s for s in rs if mc.target_key(s.target)[3] == ("*", ("var", mc.params[0]["name"], mc.params[0]["did"]))]
-        if not own or mc.dominated_by(x.node, nodeset([s.node for s in own])) is not None:
-            bad = bad or "the state exchange is reachable before the result is stored"
-        elif not order_ge(own[0].order or "relaxed", "release"):
+        if not own:
+            bad = bad or "the result is never stored"
+        elif mc.dominated_by(x.node, nodeset([s.node for s in own])) is not None:
+            # a store skipped for a NULL return value is still right provided the field is NULL then: it is NULL at creation
+            # (init rule) and the only other writer, the joiner's mailbox, is emptied on every path by the joiner itself
+            from rules import is_param_load
+            isres = is_param_load(mc, "result")
+            skipped_only_for_null = not reach(mc, [x.node], atom_from([(isres, 0x4000)]), barrier=nodeset([s.node for s in own]))
+            mb = mailbox_emptied(P)
+            if not skipped_only_for_null:
+                bad = bad or "the state exchange is reachable before the result is stored"
+            elif mb is not None:
+                bad = bad or ("the result is published only when it is non-NULL, but the fiber's result field is not guaranteed to be NULL otherwise: " + mb)
+        if own and not order_ge(own[0].order or "relaxed", "release"):
             bad = bad or "result store order %s" % own[0].order
         cp = [s for s in rs if s not in own]
         for q in mc.calls(SCHED):
@@ -188,6 +199,27 @@ def run(ctx):
         if not ys or reach(cw, [xs[0].node], atom_from([(isx, 0)]), start=xs[0].node, barrier=nodeset(ys)):
             bad = bad or "retries without yielding"
     o.check(bad is None, "exchange/yield loop", bad, site=cw.loc, construct="clear_or_wait")
+    for name in ("fiber_create_no_sched", "fiber_create_from_thread"):
+        check_init(ctx, P, name, [(F, "detach_state", NONE), (F, "join_info", 0), (F, "result", 0)], calls=["calloc"], rule="init",
+                   why="a fiber born with a non-NONE detach state or a stale join_info makes the first join/complete take the wrong branch")
+
+def mailbox_emptied(P):
+    """None if every value parked in a joiner's `result` mailbox is removed again by the joiner on all paths, else why not."""
+    j = P.fn("fiber_join")
+    waits = j.calls(SAW)
+    if not waits:
+        return "fiber_join has no joiner-first wait"
+    clears = []
+    for s in j.stores_to(F, "result"):
+        tk = j.key(strip(s.target).kids[0], resolve=True) if strip(s.target).k == "MemberExpr" else ("?",)
+        if key_mentions(tk, lambda y: y[0] == "f" and y[2] == "current_fiber") and s.value is not None and strip(s.value).cv == 0:
+            clears.append(s.node)
+    if not clears:
+        return "fiber_join never clears the joiner's mailbox"
+    for w in waits:
+        if j.find_path(w, "exit", barrier=nodeset(clears)) is not None:
+            return "fiber_join can return from the joiner-first wait without clearing its own `result` (e.g. when the caller passed result == NULL)"
+    return None
 
 
 def result_rules(f, x):
